@@ -186,6 +186,26 @@ def c02_ctone(ctx, case):
               % (row, k % nfft, nfft, N, int(round(b)) % nfft, d, tol), sig=sig)
 
 
+# long records with a high-order ARMA model: the AR part is fitted to an almost noise-free autocorrelation sequence, the
+# worst-conditioned least-squares problem any estimator of the package solves in ordinary use
+@st.composite
+def ctone_long_case(draw):
+    N = draw(st.sampled_from([2048, 4096, 4096]))
+    P, Q, lag = draw(st.sampled_from([[15, 15, 30], [20, 10, 40], [30, 10, 60], [12, 5, 29], [15, 10, 40]]))
+    nfft = N
+    k = draw(st.integers(-(nfft // 2) + 8, nfft // 2 - 8))
+    return {"row": "parma", "n": N, "nfft": nfft, "k": k, "params": {"P": P, "Q": Q, "lag": lag},
+            "amp": 1.0, "phase": draw(st.floats(0, 6.283)), "noise": draw(st.sampled_from([7e-4, 1e-3, 2e-3])), "seed": draw(gen.seeds),
+            "sampling": 1.0}
+
+
+@sub("C02.ctone_long", strategy=ctone_long_case(), quick=10, thorough=150,
+     doc="parma with P 12..20 on records of 2048..4096 samples, complex on-grid tone at 50-60 dB, NFFT = N: the maximum is within "
+         "one bin of the tone (unchanged code: AR root within 1e-4 bin, peak 2e7 above the next value)")
+def c02_ctone_long(ctx, case):
+    c02_ctone(ctx, case)
+
+
 # --------------------------------------------------------------------------
 HALF = {"rectangular": 1, "hann": 2, "hamming": 2, "bartlett": 2, "blackman": 3, "kaiser": 3}
 
